@@ -42,19 +42,29 @@ def oracle_conservation(R, tier, seed):
                 ms = max((np.abs(fp - p).max()) * np.abs(F).sum(), 1e-300)
                 desc = {"kind": kind, "nx": nx, "ny": ny, "fem_origin": w2, "seed": seed, "rep": rep}
                 # LoadTransfer
-                outs, _, _ = core.run_comp(LoadTransfer(surface=surf), {"def_mesh": mesh, "sec_forces": F}, want_J=False)
-                loads = outs["loads"]
-                nodes = (1 - w2) * mesh[0] + w2 * mesh[-1]
-                e_f = _rel(loads[:, :3].sum(axis=0), Ftot, fs)
-                e_m = _rel((np.cross(nodes - p, loads[:, :3]) + loads[:, 3:]).sum(axis=0), Mtot, ms)
-                O1["cases"] += 1
-                O1["worst"] = max(O1["worst"], e_f, e_m)
-                if e_f > 1e-10 or e_m > 1e-10:
-                    O1["failures"].append({"key": "C11:LoadTransfer:total-force-moment", "case": desc,
-                                           "force_err": e_f, "moment_err": e_m,
-                                           "mesh": mesh.tolist(), "sec_forces": F.tolist(), "p": p.tolist()})
-                else:
-                    O1["ok"] += 1
+                # the nodal moments must be taken about the STRUCTURAL nodes, i.e. those ComputeNodes defines for the same surface
+                # dictionary: tube (fem_origin), wing box (spar location from the section data), and a wing-box dictionary that
+                # also carries a fem_origin entry (which a wing box ignores) - a seeded change that made LoadTransfer follow the
+                # entry while ComputeNodes follows the model type was missed without the last variant
+                from openaerostruct.structures.compute_nodes import ComputeNodes
+                variants = [("tube", surf)]
+                if rep == 0:
+                    wb = gen.wingbox_surface(mesh, symmetry=(kind != "full"))
+                    variants += [("wingbox", wb), ("wingbox+fem_origin-entry", dict(wb, fem_origin=float(rng.choice([0.35, 0.25, 0.5]))))]
+                for vname, sv in variants:
+                    outs, _, _ = core.run_comp(LoadTransfer(surface=sv), {"def_mesh": mesh, "sec_forces": F}, want_J=False)
+                    loads = outs["loads"]
+                    nodes = core.run_comp(ComputeNodes(surface=sv), {"mesh": mesh}, want_J=False)[0]["nodes"]
+                    e_f = _rel(loads[:, :3].sum(axis=0), Ftot, fs)
+                    e_m = _rel((np.cross(nodes - p, loads[:, :3]) + loads[:, 3:]).sum(axis=0), Mtot, ms)
+                    O1["cases"] += 1
+                    O1["worst"] = max(O1["worst"], e_f, e_m)
+                    if e_f > 1e-10 or e_m > 1e-10:
+                        O1["failures"].append({"key": "C11:LoadTransfer(%s):total-force-moment" % vname, "case": dict(desc, structural_model=vname, fem_origin_entry=sv.get("fem_origin")),
+                                               "force_err": e_f, "moment_err": e_m,
+                                               "mesh": mesh.tolist(), "sec_forces": F.tolist(), "p": p.tolist()})
+                    else:
+                        O1["ok"] += 1
                 # MeshPointForces
                 outs, _, _ = core.run_comp(MeshPointForces(surfaces=[surf]), {"wing_sec_forces": F}, want_J=False)
                 mpf = outs["wing_mesh_point_forces"]
